@@ -191,14 +191,15 @@ fn eval_degenerate(kind: usize) -> (Vec<(String, String)>, String) {
 
 fn eval_forward_transformed(ri: usize, ti: usize, mi: usize) -> (Vec<(String, String)>, String) {
     let (mut fails, sig) = eval_forward_transformed_prev(ri, ti, mi, 0);
-    for pv in 1..4 {
+    for pv in 1..6 {
         fails.extend(eval_forward_transformed_prev(ri, ti, mi, pv).0);
     }
     (fails, sig)
 }
 
 /// prev_variant: 0 = qs with J4 nudged, 1 = CONSTRAINT_CENTERED on an unconstrained robot (zeros),
-/// 2 = CONSTRAINT_CENTERED on a constrained robot (its centres), 3 = a vector far from qs
+/// 2 = CONSTRAINT_CENTERED on a constrained robot (its centres), 3 = a vector far from qs,
+/// 4 = as 0 with the frame over a robot that carries a tool (offset and tilt), 5 = as 0 over base > tool
 fn eval_forward_transformed_prev(ri: usize, ti: usize, mi: usize, prev_variant: usize) -> (Vec<(String, String)>, String) {
     let mut fails = Vec::new();
     let robots = robot_axis(0, &[6]);
@@ -209,7 +210,22 @@ fn eval_forward_transformed_prev(ri: usize, ti: usize, mi: usize, prev_variant: 
     let m = motions[mi % 3];
     let limits = rs_opw_kinematics::constraints::Constraints::new([-1.0, -3.0, -3.0, -0.5, -3.0, -5.5], [4.5, 3.0, 3.0, 5.5, 3.0, 0.5], 0.0);
     let robot = if prev_variant == 2 { OPWKinematics::new_with_constraints(p, limits) } else { OPWKinematics::new(p) };
-    let framed = Frame { robot: Arc::new(robot), frame: to_na(&m) };
+    // the robot under the frame: bare, or (variants 4, 5) wearing a tool with an offset and a tilt, on a turned and shifted base
+    let tool = Iso::new(mmul(&roty(0.4), &rotz(-0.3)), [0.03, -0.02, 0.12]);
+    let base = Iso::new(rotz(0.7), [0.2, 0.1, 0.05]);
+    let inner: Arc<dyn rs_opw_kinematics::kinematic_traits::Kinematics> = match prev_variant {
+        4 => Arc::new(rs_opw_kinematics::tool::Tool { robot: Arc::new(robot), tool: to_na(&tool) }),
+        5 => Arc::new(rs_opw_kinematics::tool::Tool { robot: Arc::new(rs_opw_kinematics::tool::Base { robot: Arc::new(robot), base: to_na(&base) }), tool: to_na(&tool) }),
+        _ => Arc::new(robot),
+    };
+    let stack_fk = |j: &rs_opw_kinematics::kinematic_traits::Joints| -> Iso {
+        match prev_variant {
+            4 => fkref::fk(&p, j).mul(&tool),
+            5 => base.mul(&fkref::fk(&p, j)).mul(&tool),
+            _ => fkref::fk(&p, j),
+        }
+    };
+    let framed = Frame { robot: inner, frame: to_na(&m) };
     let mut prev = q;
     prev[3] += 0.1;
     let mut reference = prev;
@@ -234,14 +250,14 @@ fn eval_forward_transformed_prev(ri: usize, ti: usize, mi: usize, prev_variant: 
         let _ = other.forward_transformed(&q, &prev);
     }
     let (sols, pose) = framed.forward_transformed(&q, &prev);
-    let want = m.mul(&fkref::fk(&p, &q));
+    let want = m.mul(&stack_fk(&q));
     let (dp, da) = pose_dist(&from_na(&pose), &want);
     if !(dp <= 1e-9 && da <= 1e-9) {
         fails.push(("C17/forward_transformed/pose".to_string(), format!("returned pose differs from frame*forward(q) by {dp:e} m, {da:e} rad")));
     }
     let mut last = f64::NEG_INFINITY;
     for s in &sols {
-        let (dp, da) = pose_dist(&fkref::fk(&p, s), &want);
+        let (dp, da) = pose_dist(&stack_fk(s), &want);
         if !(dp <= POS_TOL && da <= ANG_TOL) {
             fails.push(("C17/forward_transformed/answer-unsound".to_string(), format!("answer {s:?} misses the frame-moved pose by {dp:e} m, {da:e} rad")));
             break;
